@@ -5,6 +5,7 @@ import (
 	"bytes"
 	"errors"
 	"fmt"
+	"runtime"
 	"sort"
 	"testing"
 
@@ -198,6 +199,45 @@ func c12Prop(st *CaseStats, fam int) func(t *rapid.T) {
 			}
 			if n != int64(len(good)) || !bytes.Equal(dst.Bytes(), good) {
 				t.Fatalf("%s:\n  merge into the caller's bufio.Writer(%d) reported success (n=%d) but after the owner's Flush the destination holds %d of %d bytes", desc, ownSize, n, dst.Len(), len(good))
+			}
+		}
+		// --- the caller keeps ONE bufio.Writer for several files (no Reset in between), and merges into other
+		// destinations in between: every file must arrive, completely, at the destination it was written to ---
+		{
+			var sink, other bytes.Buffer
+			own := bufio.NewWriterSize(&sink, 1<<16)
+			// whatever the library pools between merges starts empty here (two GCs empty every sync.Pool), and
+			// the merges use a buffer size no earlier merge of this process used
+			runtime.GC()
+			runtime.GC()
+			keptBuf := 4096 + 8*len(segs)
+			for round := 0; round < 3; round++ {
+				var n int64
+				err := safely("Merger.WriteTo(kept bufio destination)", func() error {
+					var e error
+					n, e = ice.Merge(segs, drops, keptBuf).WriteTo(own, nil)
+					return e
+				})
+				inner++
+				if err == nil {
+					err = own.Flush()
+				}
+				if err != nil {
+					t.Fatalf("%s:\n  merge #%d into the caller's kept bufio.Writer: %v", desc, round, err)
+				}
+				if n != int64(len(good)) || sink.Len() != (round+1)*len(good) || !bytes.Equal(sink.Bytes()[round*len(good):], good) {
+					t.Fatalf("%s:\n  merge #%d into the caller's kept bufio.Writer returned %d; its sink now holds %d bytes, expected %d (%d files of %d bytes); another destination used in between holds %d bytes",
+						desc, round, n, sink.Len(), (round+1)*len(good), round+1, len(good), other.Len())
+				}
+				// a merge to an unrelated destination in between
+				before := other.Len()
+				if _, err := ice.Merge(segs, drops, keptBuf).WriteTo(&other, nil); err != nil {
+					t.Fatalf("%s: %v", desc, err)
+				}
+				inner++
+				if other.Len()-before != len(good) || !bytes.Equal(other.Bytes()[before:], good) {
+					t.Fatalf("%s:\n  a merge into a plain buffer after merges into a kept bufio.Writer wrote %d bytes, expected %d", desc, other.Len()-before, len(good))
+				}
 			}
 		}
 		// --- close channel closed at every point ---
@@ -532,14 +572,14 @@ type countingFailAfter struct{ k, n int }
 func (w *countingFailAfter) Write(p []byte) (int, error) {
 	room := w.k - w.n
 	if room <= 0 {
-		return 0, errInjected
+		return 0, writeErrFor(w.k)
 	}
 	if len(p) <= room {
 		w.n += len(p)
 		return len(p), nil
 	}
 	w.n += room
-	return room, errInjected
+	return room, writeErrFor(w.k)
 }
 
 func TestC12Giant(t *testing.T) {
